@@ -182,6 +182,25 @@ def ev_roles(o, roles, env):
         if op in tab:
             return tab[op]
         raise Unknown(o)
+    if k == "agg":
+        nm = o[1].rsplit("::", 1)[-1]
+        if nm == "Some" and len(o[2]) == 1:
+            return ("opt", ev_roles(o[2][0], roles, env))
+        if nm == "None":
+            return ("opt", None)
+        raise Unknown(o)
+    if k == "promoted":
+        fb = getattr(roles, "fb", None)
+        pb = getattr(fb, "promoted", {}).get((o[1], o[2])) if fb is not None else None
+        if pb is None:
+            raise Unknown(o)
+        from .origin import Origins
+        po = Origins(pb, fb)
+        last = max(i for i, blk in enumerate(pb.blocks) if blk["term"]["k"] == "return")
+        return ev_roles(po.of_local(0, last, "t"), roles, env)
+    if k == "call" and o[1] in ("core::cmp::PartialEq::eq", "core::cmp::PartialEq::ne") and len(o[2]) == 2:
+        a, b = ev_roles(o[2][0], roles, env), ev_roles(o[2][1], roles, env)
+        return (a == b) if o[1].endswith("::eq") else (a != b)
     if k == "discr":
         v = ev_roles(o[1], roles, env)
         if isinstance(v, tuple) and v[0] == "opt":
